@@ -1394,6 +1394,52 @@ def fam_kqseq(rnd, i):
     return steps
 
 
+def fam_kqredir(rnd, i):
+    """kqueue: a watched directory goes away while a directory of the same name is there when the reader gets to it - replaced
+    by rename(2), or removed and made again (with entries) before the reader runs: the user's watch ends (Remove, gone
+    from WatchList) and nothing of the new directory is watched or kept open."""
+    w = "w1"
+    sp = rnd.choice(["rel", "abs"])
+    steps = [fs("mkdir", ("d1",)), fs("mkdir", ("d2",)), fs("mkdir", ("o",)), fs("create", ("o", "n1")), fs("create", ("o", "n2")),
+             new(w, 0), call(w, "add", ("d1",), sp), call(w, "add", ("d2",), sp), {"s": "obs"}]
+    how = rnd.choice(["rename_over", "rename_over", "recreate"])
+    if how == "rename_over":
+        steps += [fs("rename2", ("o",), to=("d1",)), {"s": "drain"}]
+    else:
+        steps.append({"s": "rep", "k": 1, "atomic": True,
+                      "pat": [fs("create", ("d2", "other")), fs("rmdir", ("d1",)), fs("mkdir", ("d1",)), fs("create", ("d1", "n1")), fs("create", ("d1", "n2"))]})
+        steps.append({"s": "drain"})
+    steps += [{"s": "obs"}, call(w, "watchlist"), fs("write", ("d1", "n1")), fs("create", ("d1", "n3")), {"s": "drain"}, {"s": "obs"},
+              call(w, "remove", ("d1",), sp), fs("create", ("d2", "last")), {"s": "drain"}, {"s": "obs"}, call(w, "watchlist"),
+              call(w, "close"), {"s": "drain"}, {"s": "obs"}]
+    return steps
+
+
+def fam_kqblind(rnd, i):
+    """kqueue, an unprivileged owner (simulated: a file without the owner-read bit cannot be opened): an entry that is
+    unreadable when its directory is added cannot be watched; once it is readable again, the next change of the directory
+    covers it - from then on its writes, attribute changes and removal are reported like anybody else's."""
+    w = "w1"
+    sp = rnd.choice(["rel", "abs"])
+    f, g = ("d1", "f"), ("d1", "g")
+    steps = [fs("mkdir", ("d1",)), fs("create", f), fs("create", g), fs("unreadable", f), {"s": "unpriv", "n": 1},
+             new(w, 0), call(w, "add", ("d1",), sp), {"s": "obs"}, fs("write", g), {"s": "drain"}]
+    if rnd.random() < 0.5:
+        steps += [fs("write", f), {"s": "drain"}]                 # not watched: nothing
+    steps += [fs("readable", f), {"s": "drain"}]
+    trig = rnd.choice(["create", "unlink", "rename"])
+    if trig == "create":
+        steps += [fs("create", ("d1", "h")), {"s": "drain"}]
+    elif trig == "unlink":
+        steps += [fs("unlink", g), {"s": "drain"}]
+    else:
+        steps += [fs("rename", g, to=("d1", "g2")), {"s": "drain"}]
+    steps += [{"s": "obs"}, fs("write", f), {"s": "drain"}, fs("chmod", f), {"s": "drain"}, fs("unlink", f), {"s": "drain"},
+              fs("create", f), {"s": "drain"}, fs("write", f), {"s": "drain"}, {"s": "obs"}, call(w, "watchlist"),
+              call(w, "remove", ("d1",), sp), {"s": "obs"}, call(w, "close"), {"s": "drain"}, {"s": "obs"}]
+    return steps
+
+
 def fam_kqdot(rnd, i):
     """kqueue: the watched directory is the working directory, added as "." (or "./", "sub/.."): entries are named
     without a "./" prefix, entries existing at Add are not reported, nothing is reported twice, and a second watch on a
@@ -1495,7 +1541,7 @@ def fam_withops(rnd, i):
     """withOps subsets and noFollow: only the requested operations are observed."""
     w = "w1"
     ops = rnd.randrange(1, 512)
-    steps = [{"s": "shadowmask", "ops": 0x39}, fs("mkdir", ("d1",)), fs("create", ("d1", "n1")), new(w, 0),
+    steps = [{"s": "shadowmask", "ops": 0x39}, fs("mkdir", ("d1",)), fs("create", ("d1", "n1")), fs("mkdir", ("d1", "sub")), new(w, 0),
              call(w, "add", ("d1",), "rel", ops=ops), obs(w)]
     f = FS()
     f.add(("d1",), "dir")
@@ -1506,6 +1552,8 @@ def fam_withops(rnd, i):
             steps.append(st)
         if rnd.random() < 0.3:
             steps.append(fs("read", ("d1", "n1")))
+        if rnd.random() < 0.25:
+            steps.append(fs("readdir", ("d1", "sub")))        # the same operations on a directory entry (records carry IN_ISDIR)
         steps.append(drain(w))
     steps += epilogue(w)
     return steps
@@ -1713,7 +1761,7 @@ FAMS = {
     "absorb": fam_absorb, "withops": fam_withops, "repoint": fam_repoint, "stall": fam_stall, "spell": fam_spell,
     "endwatch": fam_endwatch, "paced": fam_paced, "ovfstall": fam_ovfstall, "ovflate": fam_ovflate,
     "parmoves": fam_parmoves, "multix": fam_multix, "recurse": fam_recurse, "cwd": fam_cwd, "readfault": fam_readfault, "dselfskip": fam_dselfskip, "heldparent": fam_heldparent, "reops": fam_reops, "rootwatch": fam_rootwatch, "slowpair": fam_slowpair, "capsweep": fam_capsweep, "wlpark": fam_wlpark, "recerr": fam_recerr,
-    "kqdir": fam_kqdir, "kqsym": fam_kqsym, "kqburst": fam_kqburst, "kqcycle": fam_kqcycle, "kqfault": fam_kqfault, "kqdot": fam_kqdot, "kqseq": fam_kqseq, "kqkfault": fam_kqkfault, "kqnested": fam_kqnested,
+    "kqdir": fam_kqdir, "kqsym": fam_kqsym, "kqburst": fam_kqburst, "kqcycle": fam_kqcycle, "kqfault": fam_kqfault, "kqdot": fam_kqdot, "kqredir": fam_kqredir, "kqblind": fam_kqblind, "kqseq": fam_kqseq, "kqkfault": fam_kqkfault, "kqnested": fam_kqnested,
 }
 
 
